@@ -192,6 +192,14 @@ class SyncedList(SyncedCollection, MutableSequence):
         """
         data = _convert_numpy(data)
         if _sequence_resolver.get_type(data) == "SEQUENCE":
+            if self._root is not None:
+                # A nested collection must be reset within the current content
+                # of the resource (other parts may have changed meanwhile) and
+                # under the root's locks, like every other write operation.
+                self._validate(data)
+                with self._load_and_save:
+                    self._update(data, _validate=True)
+                return
             self._update(data)
             with self._thread_lock:
                 self._save()
@@ -245,6 +253,13 @@ class SyncedList(SyncedCollection, MutableSequence):
             self._data.remove(self._from_base(data=value, parent=self))
 
     def clear(self):  # noqa: D102
+        if self._root is not None:
+            # A nested collection must be cleared within the current content
+            # of the resource (other parts may have changed meanwhile) and
+            # under the root's locks, like every other write operation.
+            with self._load_and_save:
+                self._data.clear()
+            return
         self._data = []
         with self._thread_lock:
             self._save()
